@@ -286,7 +286,14 @@ func init() {
 	commands["c08"] = func(args []string) error {
 		out := NewOutput()
 		rng := NewRng(seedFromEnv(), "c08")
+		late := lateRegistrationPrelude()
+		reportLate(out, "C08", "filter", "names")
 		g := lint.GlobalRegistry()
+		for _, n := range late {
+			if !contains(g.Names(), n) {
+				out.Violate("C08|late-lint-not-listed:"+n, "a lint registered after the registry's first use is not listed by Names()", n, nil, nil)
+			}
+		}
 		cfg, _ := lint.NewConfigFromString("[e_rsa_fermat_factorization]\nRounds = 7\n")
 		g.SetConfiguration(cfg)
 		info := registryInfo(g)
@@ -310,6 +317,10 @@ func init() {
 			{IncludeNames: []string{names[0], names[0], " " + names[1]}}, {Regex: ".", IncludeNames: []string{names[3]}},
 			{Regex: ".", ExcludeNames: []string{"nosuch"}}, {IncludeNames: []string{"nosuch", "alsonot"}, ExcludeNames: []string{"third"}},
 			{IncludeSources: []string{"CABF_BR"}, ExcludeSources: []string{"CABF_BR"}}}
+		for _, ln := range late {
+			specs = append(specs, FilterSpec{IncludeNames: []string{ln}}, FilterSpec{Regex: "verif_late"}, FilterSpec{ExcludeNames: []string{ln}}, FilterSpec{IncludeSources: []string{byName[ln].Src}},
+				FilterSpec{ExcludeSources: []string{"Mozilla"}})
+		}
 		for i := 0; i < n; i++ {
 			specs = append(specs, randomFilterSpec(rng, names, srcs, i%3 != 0))
 		}
